@@ -1306,7 +1306,7 @@ pub fn replay_c05(case: &Value) -> Report {
     r
 }
 
-pub const RULE_C05: &str = "8 protocols x 3 layers x footer catalogue (none, empty, 40 strings + 20 (thorough 300) seeded random ones; incl. prefix/extension pairs, case and whitespace variants, NUL suffix, NFC/NFD, strings whose base64 differs in the last character, strings that are themselves base64 or contain dots): a token is built with each footer F through that layer's builder and presented to that layer's parser with every expected footer F' of the catalogue; oracle: accept iff F' == F with none == empty (string equality in the harness). Plus swaps of the footer with its neighbouring pieces ((footer X, no assertion) presented as (no footer, assertion X) and vice versa; for public tokens (empty message, footer X) as (message X, no footer); small, 9 000-byte and 70 000-byte messages). Plus a re-cut across a length prefix (the first d bytes of the footer, preceded by the footer's length field, are moved behind the message / ciphertext and the rest is presented as footer, d in {128, 256, 65536}: collides iff the PAE length encoding is not injective). Plus a footer LENGTH sweep (every length 0..=330 and 65535..65537: built, opened with the same footer, its one-byte-shorter prefix, its one-byte extension and same-length footers differing only in the last byte / last eight bytes). Plus parser sessions (the expected footer is changed between parses of one parser object) and 160 (thorough 2000) NESTED pairs of them (a second parser object is created, used and dropped in the middle of another one's session on the same thread; both must answer as alone). Plus the footer segment of every produced token compared with the harness's own base64url encoder, and edits of the segment (removed, emptied, replaced with and without matching expectation, extended, truncated, raw text, followed by further segments, added to a footer-less token with a matching, an empty and NO expectation). distinct_nontrivial = distinct (protocol, layer, built class, supplied class) for accepted pairs and (protocol, layer, case class, rejection variant) for rejected ones";
+pub const RULE_C05: &str = "8 protocols x 3 layers x footer catalogue (none, empty, 40 strings + 20 (thorough 300) seeded random ones; incl. prefix/extension pairs, case and whitespace variants, NUL suffix, NFC/NFD, strings whose base64 differs in the last character, strings that are themselves base64 or contain dots): a token is built with each footer F through that layer's builder and presented to that layer's parser with every expected footer F' of the catalogue; oracle: accept iff F' == F with none == empty (string equality in the harness). Plus swaps of the footer with its neighbouring pieces ((footer X, no assertion) presented as (no footer, assertion X) and vice versa; for public tokens (empty message, footer X) as (message X, no footer); small, 9 000-byte and 70 000-byte messages). Plus a re-cut across a length prefix (the first d bytes of the footer, preceded by the footer's length field, are moved behind the message / ciphertext and the rest is presented as footer, d in {128, 256, 65536}: collides iff the PAE length encoding is not injective). Plus a footer LENGTH sweep (every length 0..=330 and 65535..65537: built, opened with the same footer, its one-byte-shorter prefix, its one-byte extension and same-length footers differing only in the last byte / last eight bytes). Plus parser sessions (the expected footer is changed between parses of one parser object) and 160 (thorough 2000) NESTED pairs of them (a second parser object is created, used and dropped in the middle of another one's session on the same thread; both must answer as alone). Plus the footer segment of every produced token compared with the harness's own base64url encoder, and edits of the segment (removed, emptied, replaced with and without matching expectation, extended, truncated, raw text, followed by further segments, added to a footer-less token with a matching, an empty and NO expectation). distinct_nontrivial = distinct (protocol, layer, built class, supplied class) for accepted pairs and (protocol, layer, case class, rejection variant) for rejected ones; plus builder reuse incl. a batteries builder used again after a REFUSED build and a claim-less GenericBuilder (any token still produced is bound to the configured footer)";
 
 // ==========================================================================================
 // C06
@@ -1653,7 +1653,7 @@ pub fn replay_c06(case: &Value) -> Report {
     r
 }
 
-pub const RULE_C06: &str = "v3/v4 local/public x 3 layers x assertion catalogue (none, empty, 40 strings with near-miss pairs): a token is built with assertion A through that layer's builder and presented to that layer's parser with every A' of the catalogue; oracle: accept iff A' == A (none == empty). Plus swaps of the assertion with the footer ((footer X, no assertion) presented as (no footer, assertion X) and vice versa, with small, 9 000-byte and 70 000-byte messages). Plus ONE builder whose assertion is changed between builds (A, empty, B, blank, empty): each token opens with the assertion in force and with no other. Plus an assertion LENGTH sweep (0..=330, 65535..65537; same / one byte shorter / one byte longer / same length with the last byte or last eight bytes changed). Plus parser sessions (assertion changed between parses) and 160 (thorough 2000) NESTED pairs of them (two parser objects alive at once on one thread); the assertion supplied as footer instead; for 60 (thorough 400) random assertions of >= 12 base64-alphabet characters per protocol with a FIXED nonce: token length equal for none / A / A', A (raw and base64url at the three byte alignments) absent from the token text and decoded payload, nonce||ciphertext identical across assertions (local), tokens differ across assertions; re-split attack (F,A)->(F',A') with F||A == F'||A' at six split points, and across a LENGTH PREFIX (F' = F || len(A) || A[..d-8], A' = A[d..] with A[d-8..d] = LE64(|A'|), d in {128, 256, 32768, 65536}, len(A) written as LE64(|A|) and as LE64(|A|-d): collides iff the PAE length encoding is not injective). distinct_nontrivial = distinct (protocol, layer, class, built class, supplied class)";
+pub const RULE_C06: &str = "v3/v4 local/public x 3 layers x assertion catalogue (none, empty, 40 strings with near-miss pairs): a token is built with assertion A through that layer's builder and presented to that layer's parser with every A' of the catalogue; oracle: accept iff A' == A (none == empty). Plus swaps of the assertion with the footer ((footer X, no assertion) presented as (no footer, assertion X) and vice versa, with small, 9 000-byte and 70 000-byte messages). Plus ONE builder whose assertion is changed between builds (A, empty, B, blank, empty): each token opens with the assertion in force and with no other. Plus an assertion LENGTH sweep (0..=330, 65535..65537; same / one byte shorter / one byte longer / same length with the last byte or last eight bytes changed). Plus parser sessions (assertion changed between parses) and 160 (thorough 2000) NESTED pairs of them (two parser objects alive at once on one thread); the assertion supplied as footer instead; for 60 (thorough 400) random assertions of >= 12 base64-alphabet characters per protocol with a FIXED nonce: token length equal for none / A / A', A (raw and base64url at the three byte alignments) absent from the token text and decoded payload, nonce||ciphertext identical across assertions (local), tokens differ across assertions; re-split attack (F,A)->(F',A') with F||A == F'||A' at six split points, and across a LENGTH PREFIX (F' = F || len(A) || A[..d-8], A' = A[d..] with A[d-8..d] = LE64(|A'|), d in {128, 256, 32768, 65536}, len(A) written as LE64(|A|) and as LE64(|A|-d): collides iff the PAE length encoding is not injective). distinct_nontrivial = distinct (protocol, layer, class, built class, supplied class); plus footers RELATED to the assertion (equal, containing it, contained in it), tokens with a footer presented with NO footer and another assertion, claim-less generic builders, and a batteries builder used again after a REFUSED build";
 
 // ==========================================================================================
 // C07
